@@ -35,6 +35,9 @@ pub struct Case {
     /// true: `speed_sets[Freight]`, false: `speed_set: Some`
     pub map_style: bool,
     pub gate: Option<Gate>,
+    /// a second condition on the same speed set (the set applies only if EVERY condition holds)
+    #[serde(default)]
+    pub gate2: Option<Gate>,
     /// composition of the route into extend calls (sums to number of links)
     pub partition: Vec<usize>,
 }
@@ -81,7 +84,7 @@ pub fn build_network(c: &Case) -> Network {
         let len_m = c.link_len[i] as f64 * UNIT_M;
         let sl: Vec<(f64, f64, f64)> = lims.iter().map(|(s, e, v)| (*s as f64 * UNIT_M, *e as f64 * UNIT_M, *v)).collect();
         let mut ss = SpeedSet { speed_limits: speed_limits_from(&sl), speed_params: vec![], is_head_end: c.head_end };
-        if let Some(g) = &c.gate {
+        for g in [&c.gate, &c.gate2].into_iter().flatten() {
             ss.speed_params.push(SpeedParam { limit_val: g.limit_val, limit_type: limit_type(&g.limit_type), compare_type: compare_type(&g.compare_type) });
         }
         if ss.speed_limits.is_empty() {
@@ -97,7 +100,7 @@ pub fn build_network(c: &Case) -> Network {
 /// restriction intervals in path coordinates (metres)
 pub fn ref_intervals(c: &Case, tp: &TrainParams) -> Vec<(f64, f64, f64)> {
     let mut out = vec![];
-    if let Some(g) = &c.gate {
+    for g in [&c.gate, &c.gate2].into_iter().flatten() {
         if !ref_gate_applies(g, tp) {
             return out;
         }
@@ -442,7 +445,7 @@ impl Prop for C02C13 {
     fn rule(&self, tier: Tier) -> String {
         let fams: Vec<String> = families(tier).iter().map(|f| format!("G={} r<={} speed_max in {:?} train_len in {:?}", f.g, f.r, f.speed_maxes, f.train_lens)).collect();
         format!(
-            "E-SHAPE: every sorted restriction list (start<=end, zero-length ones included, on a 0..G grid of 100 m units, speed in {{5,10,15}} m/s, distinct (start,end) pairs) x head/tail-end x train length x speed_max x speed_set/speed_sets style, single link [{}]; gating: every LimitType x CompareType x train value below/equal/above; routes of 2 links (r<=2 each) and 3 links (r<=1 each) of 4 units with every composition into extend calls; one real PathTpc::extend pipeline per element. A case is non-trivial/distinct by its signature = set of per-restriction classes (position after/at/inside the existing profile, start/end on an existing breakpoint, breakpoints covered, lowers at start/end, filtered by speed_max) computed against the reference profile of the restrictions before it.",
+            "E-SHAPE: every sorted restriction list (start<=end, zero-length ones included, on a 0..G grid of 100 m units, speed in {{5,10,15}} m/s, distinct (start,end) pairs) x head/tail-end x train length x speed_max x speed_set/speed_sets style, single link [{}]; gating: every LimitType x CompareType x train value below/equal/above, and every ORDERED PAIR of such conditions on one speed set (the set applies only if both hold); routes of 2 links (r<=2 each) and 3 links (r<=1 each) of 4 units with every composition into extend calls; one real PathTpc::extend pipeline per element. A case is non-trivial/distinct by its signature = set of per-restriction classes (position after/at/inside the existing profile, start/end on an existing breakpoint, breakpoints covered, lowers at start/end, filtered by speed_max) computed against the reference profile of the restrictions before it.",
             fams.join("; ")
         )
     }
@@ -495,6 +498,7 @@ impl Prop for C02C13 {
                                     speed_max,
                                     map_style,
                                     gate: None,
+                                    gate2: None,
                                     partition: vec![1],
                                 };
                                 let mut net = build_network(&c);
@@ -557,6 +561,7 @@ impl Prop for C02C13 {
                             speed_max: 20.0,
                             map_style: true,
                             gate: Some(Gate { limit_type: lt.into(), compare_type: ct.into(), limit_val }),
+                            gate2: None,
                             partition: vec![1],
                         };
                         for first in (0..tri.len()).map(Some) {
@@ -568,6 +573,52 @@ impl Prop for C02C13 {
                                 self.run_one(ctx, &c, &net, &tp, &mut n);
                             });
                         }
+                    }
+                }
+            }
+        }
+        // ---- two conditions on one speed set: every ordered pair of (type, comparison, below/equal/above) ----
+        {
+            let g = 4u32;
+            let tri = triples(g);
+            let tp = train_params(2.0 * UNIT_M, 20.0);
+            let mut gates: Vec<(Gate, String)> = vec![];
+            for lt in LIMIT_TYPES {
+                for ct in COMPARE_TYPES {
+                    let tv = match lt {
+                        "MassTotal" => tp.towed_mass_static.value,
+                        "MassPerBrake" => tp.mass_per_brake.value,
+                        _ => tp.axle_count as f64,
+                    };
+                    for rel in [-1.0, 0.0, 1.0] {
+                        gates.push((Gate { limit_type: lt.into(), compare_type: ct.into(), limit_val: tv + rel }, format!("{lt}:{ct}:{rel}")));
+                    }
+                }
+            }
+            for (g1, _) in &gates {
+                if !ctx.claim() {
+                    continue;
+                }
+                for (g2, _) in &gates {
+                    let mut c = Case {
+                        link_len: vec![g],
+                        links: vec![vec![]],
+                        train_len: 2,
+                        head_end: false,
+                        speed_max: 20.0,
+                        map_style: false,
+                        gate: Some(g1.clone()),
+                        gate2: Some(g2.clone()),
+                        partition: vec![1],
+                    };
+                    let (a1, a2) = (ref_gate_applies(g1, &tp), ref_gate_applies(g2, &tp));
+                    ctx.sig(&format!("gate-pair:{a1}:{a2}"));
+                    for first in (0..tri.len()).map(Some) {
+                        for_each_set(&tri, first, 1, &mut |set| {
+                            c.links[0] = set.to_vec();
+                            let net = build_network(&c);
+                            self.run_one(ctx, &c, &net, &tp, &mut n);
+                        });
                     }
                 }
             }
@@ -606,6 +657,7 @@ impl Prop for C02C13 {
                                 speed_max: 20.0,
                                 map_style: false,
                                 gate: None,
+                                    gate2: None,
                                 partition: vec![2],
                             };
                             let net = build_network(&c);
@@ -627,6 +679,7 @@ impl Prop for C02C13 {
                                     speed_max: 20.0,
                                     map_style: false,
                                     gate: None,
+                                    gate2: None,
                                     partition: vec![3],
                                 };
                                 let net = build_network(&c);
